@@ -259,6 +259,10 @@ def check_range(prog: Program, res: Result) -> None:
     res.floor(R, 3)
 
 
+def astq_stmt15(n):
+    return n if isinstance(n, ast.stmt) else enclosing_stmt(n)
+
+
 def check_pair(prog: Program, res: Result) -> None:
     R = "C15-pair"
     fi = prog.func(f"{EV}:match_instances")
@@ -325,6 +329,23 @@ def check_pair(prog: Program, res: Result) -> None:
     gt_param = fi.pos_params[0] if fi.pos_params else "frame_gt"
     ok = len(init) == 1 and astq.xnorm(fi.node, init[0].value) == f"list(range(len(get_instances({gt_param}))))"
     res.ob(R, ok, fi.qualname, "pool starts with every ground-truth instance", f"the pool is initialised as `{short(init[0].value, 50) if init else '?'}`", fi.where)
+    # the pools are ALL instances of the frames: get_instances wraps every instance (no filter, no early exit), so that
+    # matched + missed accounts for every ground-truth instance
+    gi = prog.func(f"{EV}:get_instances")
+    res.touch(gi)
+    grets = [n for n in walk_function(gi.node) if isinstance(n, ast.Return) and n.value is not None]
+    okg = len(grets) == 1
+    if okg:
+        rv = grets[0].value
+        if isinstance(rv, ast.ListComp):
+            bds = [astq.ListBuild("<ret>", rv.elt, list(rv.generators), [i_ for g_ in rv.generators for i_ in g_.ifs], rv)]
+        else:
+            bds = astq.list_builds(gi.node, norm(rv)) if isinstance(rv, ast.Name) else []
+        okg = len(bds) == 1 and len(bds[0].gens) == 1 and not bds[0].conds and astq.xnorm(gi.node, bds[0].gens[0].iter).endswith(".instances") \
+            and not [j for j in ast.walk(bds[0].gens[0]) if isinstance(j, (ast.Break, ast.Continue, ast.Return))] \
+            and isinstance(bds[0].elt, (ast.Call, ast.Name)) and norm(bds[0].gens[0].target) in astq.names_in(astq.expand_at(gi.node, bds[0].elt, astq_stmt15(bds[0].site)))
+    res.ob(R, okg, gi.qualname, "every instance of the frame is wrapped (no filtering)",
+           "get_instances skips or filters instances: an instance that never enters the pool is neither matched nor counted as missed", gi.where)
     # early exit only when the pool is empty
     brs = [n for n in ast.walk(lp) if isinstance(n, ast.Break)]
     for b in brs:
